@@ -16,9 +16,6 @@ func (k Keeper) BeginBlocker(ctx context.Context) error {
 	if err := k.DistributeReward(sdkctx); err != nil {
 		return err
 	}
-	if err := k.DequeueMatureUnlocks(sdkctx); err != nil {
-		return err
-	}
 	if err := k.HandleVoteInfos(sdkctx); err != nil {
 		return err
 	}
@@ -30,6 +27,13 @@ func (k Keeper) BeginBlocker(ctx context.Context) error {
 
 func (k Keeper) EndBlocker(ctx context.Context) ([]abci.ValidatorUpdate, error) {
 	sdkctx := sdktypes.UnwrapSDKContext(ctx)
+
+	// the eth block of this block was built and verified with the queue of the last block
+	// the begin blocker isn't executed by the proposal handlers, so the matured unlocks
+	// should be handed over when the txs are executed, they will be sent by the next block
+	if err := k.DequeueMatureUnlocks(sdkctx); err != nil {
+		return nil, err
+	}
 
 	lastSet := make(map[string]uint64)
 	{
